@@ -552,6 +552,175 @@ func c09Bookkeeping(c *Ctx, t *c09Tables) {
 		}
 	}
 
+	// ------------------------------------------------------------ J9
+	c.Rule("C09.J9", "TYPESTATE", "validator records the journal refers to are frozen: after a record was handed to UpdateValidator — as the new value or as the pre-image, directly or as the result of UpdateDelegation — no field of it is stored and no *big.Int field of it is updated in place on any path that follows in the same function (a further change works on a new copy); and Validator.UpdateDelegationFrom never writes into the slice it found (PartialCopy shares it with the pre-image): it builds a new one")
+	c.Min(10)
+	{
+		updV := w.FuncObj(statePkg, "StateDB", "UpdateValidator")
+		updD := w.FuncObj(statePkg, "StateDB", "UpdateDelegation")
+		valT := w.Named(statePkg, "Validator")
+		isValPtr := func(t types.Type) bool {
+			p, ok := t.Underlying().(*types.Pointer)
+			return ok && types.Identical(p.Elem(), valT)
+		}
+		nPub := 0
+		for _, pk := range []string{"staking", "core/state", "core"} {
+			for _, fn := range w.FuncsIn(pk) {
+				if strings.HasSuffix(w.fileOf(fn.Pos()), "_test.go") {
+					continue
+				}
+				type pub struct {
+					at  ssa.CallInstruction
+					obj ssa.Value
+					as  string
+				}
+				var pubs []pub
+				for _, ci := range callInstrs(fn) {
+					o := calleeObj(ci)
+					switch {
+					case sameFunc(o, updV):
+						a := callArgs(ci)
+						pubs = append(pubs, pub{ci, stripConv(a[0]), "new value"}, pub{ci, stripConv(a[1]), "pre-image"})
+					case sameFunc(o, updD):
+						if v := ci.Value(); v != nil {
+							for _, r := range *v.Referrers() {
+								if ex, ok := r.(*ssa.Extract); ok && isValPtr(ex.Type()) {
+									pubs = append(pubs, pub{ci, ex, "record returned by UpdateDelegation"})
+								}
+							}
+						}
+					}
+				}
+				if len(pubs) == 0 {
+					continue
+				}
+				c.sawFunc(fname(fn))
+				// mutations of a validator object in this function
+				type mut struct {
+					in   ssa.Instruction
+					base ssa.Value
+					what string
+				}
+				var muts []mut
+				for _, fw := range fieldWrites(fn) {
+					if isValPtr(fw.Base.Type()) && fw.Kind == "store" {
+						muts = append(muts, mut{fw.Instr, stripConv(fw.Base), "stores field " + fw.Field.Name()})
+					}
+				}
+				for _, ci := range callInstrs(fn) {
+					o := calleeObj(ci)
+					if o == nil {
+						continue
+					}
+					if recvName(o) == "Int" && o.Pkg() != nil && o.Pkg().Path() == "math/big" {
+						switch o.Name() {
+						case "Add", "Sub", "Set", "Mul", "Quo", "Div", "SetUint64", "SetInt64", "Neg":
+							if f, base := loadedField(stripConv(callRecv(ci))); f != nil && base != nil && isValPtr(base.Type()) {
+								muts = append(muts, mut{ci, stripConv(base), "updates " + f.Name() + " in place"})
+							}
+						}
+					}
+					if recvName(o) == "Validator" && o.Pkg() != nil && o.Pkg().Path() == full(statePkg) {
+						switch o.Name() {
+						case "UpdateDelegationFrom", "AddTotalRewards", "UpdateLastActive":
+							muts = append(muts, mut{ci, stripConv(callRecv(ci)), "calls " + o.Name()})
+						}
+					}
+				}
+				for i, p := range pubs {
+					nPub++
+					c.sites++
+					bad := ""
+					for _, m := range muts {
+						if m.base != p.obj && !samePath(m.base, p.obj) {
+							continue
+						}
+						if m.in == ssa.Instruction(p.at) {
+							continue
+						}
+						if reachesWithoutRedefinition(p.at, m.in, p.obj) {
+							bad = m.what + " at " + w.Pos(m.in.Pos())
+						}
+					}
+					key := fmt.Sprintf("%s#published@%d-%s-not-mutated-afterwards", fname(fn), i, strings.ReplaceAll(p.as, " ", "-"))
+					c.Check(key, p.at.Pos(), bad == "", ifelse(bad == "", "not touched after it was handed to the state", "the "+p.as+" handed to the state here is changed afterwards ("+bad+"): the journal entry written for it refers to this very object, so a revert re-installs (or adjusts the statistics by) a record that is no longer what it was — validator and statistics are not restored"))
+				}
+			}
+		}
+		if nPub < 10 {
+			c.Undecided("validator-records#published", 0, fmt.Sprintf("only %d published validator records found", nPub))
+		}
+		// UpdateDelegationFrom builds a new slice
+		udf := w.Fn(statePkg, "Validator", "UpdateDelegationFrom")
+		c.sawFunc(fname(udf))
+		dlgsF := w.Field(statePkg, "Validator", "Delegations")
+		var inPlace []string
+		var fromField func(v ssa.Value, seen map[ssa.Value]bool) bool
+		fromField = func(v ssa.Value, seen map[ssa.Value]bool) bool {
+			if seen[v] {
+				return false
+			}
+			seen[v] = true
+			switch x := v.(type) {
+			case *ssa.Slice:
+				return fromField(x.X, seen)
+			case *ssa.ChangeType:
+				return fromField(x.X, seen)
+			case *ssa.Phi:
+				for _, e := range x.Edges {
+					if fromField(e, seen) {
+						return true
+					}
+				}
+			case *ssa.Call:
+				if bi, ok := x.Call.Value.(*ssa.Builtin); ok && bi.Name() == "append" {
+					return fromField(x.Call.Args[0], seen)
+				}
+			case *ssa.UnOp:
+				if f, _ := loadedField(x); f == dlgsF {
+					// unless this function stored a fresh slice into the field before
+					fresh := false
+					for _, fw := range fieldWrites(udf) {
+						if fw.Field == dlgsF && fw.Kind == "store" && instrDominates(fw.Instr, x) {
+							if _, isMake := stripConv(fw.Instr.(*ssa.Store).Val).(*ssa.MakeSlice); isMake {
+								fresh = true
+							}
+						}
+					}
+					return !fresh
+				}
+			}
+			return false
+		}
+		for _, in := range allInstrs(udf) {
+			var dst ssa.Value
+			switch x := in.(type) {
+			case *ssa.Store:
+				if ia, ok := x.Addr.(*ssa.IndexAddr); ok {
+					dst = ia.X
+				}
+			case *ssa.Call:
+				if bi, ok := x.Call.Value.(*ssa.Builtin); ok && bi.Name() == "copy" {
+					dst = x.Call.Args[0]
+				}
+				if bi, ok := x.Call.Value.(*ssa.Builtin); ok && bi.Name() == "append" {
+					dst = x.Call.Args[0] // appending reuses spare capacity of the shared array
+				}
+			}
+			if dst == nil {
+				continue
+			}
+			if _, isSlice := dst.Type().Underlying().(*types.Slice); !isSlice {
+				continue
+			}
+			if fromField(dst, map[ssa.Value]bool{}) {
+				inPlace = append(inPlace, w.Pos(in.Pos()))
+			}
+		}
+		c.sites++
+		c.Check(fname(udf)+"#builds-a-new-slice", udf.Pos(), len(inPlace) == 0, ifelse(len(inPlace) == 0, "every element write goes to a slice made in this function", "the delegation slice the record was copied with is edited in place ("+strings.Join(inPlace, ", ")+"): PartialCopy shares that array with the superseded record the journal keeps as pre-image, so after a revert the validator lists the new amount, a shifted list or a nil entry"))
+	}
+
 	// ------------------------------------------------------------ J7
 	c.Rule("C09.J7", "MIRROR", "the journal counts live entries per address: append raises dirties[addr] by one, revert lowers it by one per undone entry and deletes the key only when the count reaches zero (Finalise flushes exactly the addresses that still have live entries)")
 	c.Min(2)
